@@ -452,49 +452,60 @@ def run(chk):
                     f'deal dialogue for {seat.name}: client lines {ep.sent}; seat thread -> {rs}, forwarded {eps.sent}')
     chk.instances('C19.R6', n_r)
 
-    # lead prompts
-    _, tpp = repo.method('PlayerThread', '_playing_phase', 'C19.R6')
-    w_tpp, q_tpp = loc(repo, 'PlayerThread', '_playing_phase', 'C19.R6')
-    def arms(e, defs_):
-        # the alternatives of a conditional expression (possibly held in a local) are judged one by one
-        if isinstance(e, ast.IfExp):
-            return arms(e.body, defs_) + arms(e.orelse, defs_)
-        if isinstance(e, ast.Name) and len(defs_.get(e.id, [])) >= 1:
-            return [a for d in defs_[e.id] for a in arms(d, defs_)]
-        return [e]
-    tdefs = {}
-    for n_ in ast.walk(tpp):
-        if isinstance(n_, ast.Assign) and len(n_.targets) == 1 and isinstance(n_.targets[0], ast.Name):
-            tdefs.setdefault(n_.targets[0].id, []).append(n_.value)
-    sends = [n for n in method_calls(tpp, 'send_message') if n.args and not contains_call(n.args[0], 'receive_message_from_queue')]
-    prompts = []
-    for n in sends:
-        for a_ in arms(n.args[0], tdefs):
-            if not contains_call(a_, 'receive_message_from_queue') and not any(ast.unparse(a_) == ast.unparse(x[1]) for x in prompts):
-                prompts.append((n, a_))
-    chk.floor('C19.R6', 'lead prompt builders in PlayerThread._playing_phase', len(prompts), 2)
-    n_l = 0
-    for pr_call, pr_arg in prompts:
-        pr = ast.Call(pr_call.func, [pr_arg], [])
-        ast.copy_location(pr, pr_call)
-        for seat in P:
-            t = fresh(f, 'PlayerThread', player=seat)
-            txt = eval_in(f, pr.args[0], {'self': t}, sm, pth, 'C19.R6', q_tpp)
-            if txt[0] != 'ok':
-                chk.fail('C19.R6', w_tpp, q_tpp, ast.unparse(pr.args[0]), f'building the lead prompt raises {txt}')
-                continue
-            depends_on_seat = any(isinstance(x, ast.Attribute) and x.attr == 'player' for x in ast.walk(pr.args[0]))
-            for dummy in P:
-                r = call_in('C19.R6', 'Client.parse_leader_message', lambda: f.call_class('Client', 'parse_leader_message', txt[1], dummy))
-                want = seat if depends_on_seat else dummy
-                n_l += 1
-                chk.evals(1)
-                chk.require(r == ('ok', want), 'C19.R6', repo.where(sm, pr), q_tpp, f'lead prompt {txt[1]!r} (dummy {dummy.name})',
-                            f'lead prompt {txt[1]!r} names {want.name} to the client',
-                            f'lead prompt {txt[1]!r} is read by Client.parse_leader_message (dummy={dummy.name}) as {r}, expected {want}')
-            if not depends_on_seat:
-                break
-    chk.instances('C19.R6', n_l)
+    def lead_prompts():
+        # lead prompts
+        _, tpp = repo.method('PlayerThread', '_playing_phase', 'C19.R6')
+        w_tpp, q_tpp = loc(repo, 'PlayerThread', '_playing_phase', 'C19.R6')
+        def arms(e, defs_):
+            # the alternatives of a conditional expression (possibly held in a local) are judged one by one
+            if isinstance(e, ast.IfExp):
+                return arms(e.body, defs_) + arms(e.orelse, defs_)
+            if isinstance(e, ast.Name) and len(defs_.get(e.id, [])) >= 1:
+                return [a for d in defs_[e.id] for a in arms(d, defs_)]
+            return [e]
+        tdefs = {}
+        for n_ in ast.walk(tpp):
+            if isinstance(n_, ast.Assign) and len(n_.targets) == 1 and isinstance(n_.targets[0], ast.Name):
+                tdefs.setdefault(n_.targets[0].id, []).append(n_.value)
+        sends = [n for n in method_calls(tpp, 'send_message') if n.args and not contains_call(n.args[0], 'receive_message_from_queue')]
+        prompts = []
+        for n in sends:
+            for a_ in arms(n.args[0], tdefs):
+                if not contains_call(a_, 'receive_message_from_queue') and not any(ast.unparse(a_) == ast.unparse(x[1]) for x in prompts):
+                    prompts.append((n, a_))
+        chk.floor('C19.R6', 'lead prompt builders in PlayerThread._playing_phase', len(prompts), 1)
+        n_l = 0
+        for pr_call, pr_arg in prompts:
+            pr = ast.Call(pr_call.func, [pr_arg], [])
+            ast.copy_location(pr, pr_call)
+            for seat in P:
+                t = fresh(f, 'PlayerThread', player=seat)
+                txt = eval_in(f, pr.args[0], {'self': t}, sm, pth, 'C19.R6', q_tpp)
+                if txt[0] != 'ok':
+                    chk.fail('C19.R6', w_tpp, q_tpp, ast.unparse(pr.args[0]), f'building the lead prompt raises {txt}')
+                    continue
+                depends_on_seat = any(isinstance(x, ast.Attribute) and x.attr == 'player' for x in ast.walk(pr.args[0]))
+                for dummy in P:
+                    r = call_in('C19.R6', 'Client.parse_leader_message', lambda: f.call_class('Client', 'parse_leader_message', txt[1], dummy))
+                    want = seat if depends_on_seat else dummy
+                    n_l += 1
+                    chk.evals(1)
+                    chk.require(r == ('ok', want), 'C19.R6', repo.where(sm, pr), q_tpp, f'lead prompt {txt[1]!r} (dummy {dummy.name})',
+                                f'lead prompt {txt[1]!r} names {want.name} to the client',
+                                f'lead prompt {txt[1]!r} is read by Client.parse_leader_message (dummy={dummy.name}) as {r}, expected {want}')
+                if not depends_on_seat:
+                    break
+        chk.instances('C19.R6', n_l)
+
+
+    try:
+        lead_prompts()
+    except AnalysisError as e_lp:
+        if chk.findings:
+            raise
+        # the prompt builders could not be extracted from this shape of _playing_phase: that the bundled client understands every lead prompt it
+        # is sent is decided on the abstract sessions of R9 (the real Client.parse_leader_message runs there on the real prompt texts)
+        chk.note(f'C19.R6 lead prompts by extraction not evaluated ({e_lp.why[:160]}); decided by the abstract sessions C19.R9')
 
     def start_end_literals():
         # start / end literals
